@@ -143,6 +143,121 @@ def worker(job):
     return res
 
 
+RAW_BASE = (1, 3, 6, 1, 4, 1, 9, 2)
+
+
+def raw_universe():
+    """Varbind names as raw OBJECT IDENTIFIER contents, including ones no list of integer arcs produces: a last
+    sub-identifier cut short (continuation bit set on the final octet) and sub-identifiers of 2^32 and more.
+    (Zero-padded sub-identifiers are left out: the client echoes an accepted name octet for octet, which is what the
+    statement asks for, and my agent's strict reader could then not answer the follow-up request.)"""
+    r = B.oid_content(RAW_BASE)
+    return [r + b"\x04", r + b"\x05", r + b"\x85", r + b"\x86", r + b"\x87", r + b"\x04\x01", r + b"\x05\x81",
+            r + b"\x06", r + b"\x90\x80\x80\x80\x05", r + b"\x90\x80\x80\x80\x06", r + b"\x8f\xff\xff\xff\x7f", r + b"\xff" * 9 + b"\x7f",
+            r + b"\x06\x90\x80\x80\x80\x00", r[:-1] + b"\x82", r, r[:-1] + b"\x03\x01", r + b"\x7f"]
+
+
+def raw_worker(job):
+    """Weak, decoding-independent clauses of the statement against agents that send raw (also malformed) names:
+    every yielded OID (as printed) lies strictly inside the subtree and the printed OIDs are strictly increasing; the walk
+    ends (bounded number of requests); every request is a well-formed datagram naming an OID the previous reply carried
+    (or the base); nothing but documented exceptions."""
+    import gufo.snmp  # noqa: F401
+    cfg = rigp.Cfg.from_json(job["cfg"])
+    rng = random.Random(job["seed"])
+    U = raw_universe()
+    res = {"walks": 0, "requests": 0, "yields": 0, "bad": [], "inconclusive": [], "outcomes": {}}
+    st = {}
+
+    def handler(agent, req):
+        def f(req):
+            if not req.ok:
+                # a follow-up request that names, octet for octet, a malformed name the previous reply carried is the
+                # statement's "request for the last OID it accepted" (the garbage is the agent's); my strict reader
+                # cannot answer it, so the walk ends in a timeout - not judged.  Anything else malformed is a finding.
+                blob = req.raw + (req.plaintext or b"")
+                last = st["offered"][-1] if st["offered"] else []
+                if any(B.tlv(B.OID, nm) in blob for nm in last):
+                    st["echo"] = True
+                else:
+                    st["malformed"] = (req.err, req.raw.hex())
+                return None
+            st["reqs"].append(B.oid_content(req.oids()[0]) if req.oids() else b"")
+            k = len(st["reqs"]) - 1
+            if len(st["reqs"]) > st["limit"]:
+                return None
+            script = st["script"]
+            names = script[k % len(script)] if st["cycle"] else (script[k] if k < len(script) else None)
+            if names is None:
+                return agent.reply(req, [B.enc_seq([B.tlv(B.OID, st["reqs"][-1] or b"\x2b"), M.EXC_TLV["EndOfMibView"]])])
+            st["offered"].append(names)
+            vbs = []
+            for nm in names:
+                st["serial"] += 1
+                vbs.append(B.enc_seq([B.tlv(B.OID, nm), B.enc_int(st["serial"])]))
+            return agent.reply(req, vbs)
+        return agent.discovery_or(req, f)
+    agent = rigp.Agent(handler, users=[cfg.user_keys()]).start()
+    drv = driver.Driver(cfg, agent, timeout=0.4).create()
+    drv.call("open")
+    base_c = B.oid_content(RAW_BASE)
+    for ci in range(job["n"]):
+        op = "getnext" if ci % 2 else "getbulk"
+        if cfg.version == "v1":
+            op = "getnext"
+        depth = rng.choice([1, 2, 3, 5])
+        script = [[rng.choice(U) for _ in range(1 if op == "getnext" else rng.choice([1, 2, 3, 5]))] for _ in range(depth)]
+        cycle = rng.random() < 0.4
+        st.update(script=script, cycle=cycle, reqs=[], offered=[], serial=ci * 100, limit=len(U) * 3 + 6)
+        st.pop("malformed", None)
+        st.pop("echo", None)
+        out = drv.call(op, B.oid_text(RAW_BASE), limit=200)
+        res["walks"] += 1
+        got = out[1] if out[0] == "ok" else list(drv.partial)
+        yields = [y for y in got if y != "LIMIT"]
+        res["requests"] += len(st["reqs"])
+        res["yields"] += len(yields)
+        oc = "ok" if out[0] == "ok" else out[1]["cls"]
+        res["outcomes"]["raw:" + oc] = 1
+        bad = []
+        if "malformed" in st:
+            bad.append(("malformed-request", "the walk emitted a datagram a strict decoder rejects (%s): %s" % st["malformed"]))
+        if out[0] == "exc" and driver.classify_exc(out[1], op) in ("panic", "undocumented"):
+            bad.append(("panic", "%s raised %s: %s" % (op, out[1]["cls"], out[1]["msg"][:120])))
+        if len(st["reqs"]) > st["limit"] or (got and got[-1] == "LIMIT"):
+            bad.append(("no-termination", "%d requests / %d yields over a universe of %d names: the walk does not end" % (len(st["reqs"]), len(yields), len(U))))
+        prev = None
+        for y in yields:
+            t = tuple(int(x) for x in y[0].split("."))
+            if not specs.in_subtree(RAW_BASE, t):
+                bad.append(("outside-subtree", "yielded %s, not strictly inside %s" % (y[0], B.oid_text(RAW_BASE))))
+                break
+            if prev is not None and t <= prev:
+                bad.append(("not-increasing", "yielded %s after %s" % (y[0], B.oid_text(prev))))
+                break
+            prev = t
+        for k, rq in enumerate(st["reqs"]):
+            allowed = {base_c} if k == 0 else set(st["offered"][k - 1]) | {st["reqs"][k - 1]}
+            if rq not in allowed and "malformed" not in st:
+                bad.append(("wrong-continuation", "request %d names %s, which the previous reply did not carry (%s)" % (
+                    k, rq.hex(), [x.hex() for x in sorted(allowed)])))
+                break
+        # (a timeout is an ordinary way for these walks to end: an encrypted reply that does not parse is skipped, an
+        # echoed malformed name is not answered; termination is judged on the number of requests)
+        if "echo" in st:
+            res["outcomes"]["raw:echoed-malformed-name"] = 1
+        for sig, msg in bad:
+            if len(res["bad"]) < 60:
+                res["bad"].append({"sig": sig, "msg": msg, "cfgkey": cfg.key(), "op": op, "script": [[x.hex() for x in r] for r in script] + (["(repeated for ever)"] if cycle else []),
+                                   "requests": [x.hex() for x in st["reqs"]][:12], "yields": [(y[0], y[1]) for y in yields][:12], "outcome": repr(out)[:200]})
+        if bad or out[0] == "exc":
+            drv.close()
+            drv = driver.Driver(cfg, agent, timeout=0.4).create()
+            drv.call("open")
+    agent.stop()
+    return res
+
+
 def main():
     a = runner.main_args()
     chk = runner.Check(PID, "exploration", a.tier, a.seed)
@@ -171,6 +286,8 @@ def main():
     nj = 16
     jobs = [{"seed": a.seed, "cfg": cfgs[j % len(cfgs)].to_json(), "cases": cases[j::nj]} for j in range(nj)]
     outs = runner.run_workers("checks.c06", "worker", jobs, variant="rel", timeout=3000)
+    rj = [{"seed": a.seed * 41 + j, "cfg": cfgs[j % len(cfgs)].to_json(), "n": 150 if a.tier == "quick" else 4000} for j in range(8)]
+    outs += runner.run_workers("checks.c06", "raw_worker", rj, variant="rel", timeout=3000)
     st = {"walks": 0, "requests": 0, "yields": 0}
     for o in outs:
         res = o["result"]
